@@ -92,6 +92,32 @@ func Nested() (string, error) {
 }
 '''
 
+# F10 (C20): modifier mode emits file-scope functions; a flow whose tasks use a type declared
+# inside the enclosing function names that type at file scope
+F10 = '''//go:build cff
+
+package probe
+
+import (
+	"context"
+
+	"go.uber.org/cff"
+)
+
+// LocalType is built only from Params, Results and plain Tasks.
+func LocalType() (string, error) {
+	type local struct{ S string }
+	var out T1
+	ferr := cff.Flow(context.Background(),
+		cff.Params(T0{S: "x"}),
+		cff.Results(&out),
+		cff.Task(func(a T0) local { return local{S: a.S} }),
+		cff.Task(func(l local) T1 { return T1{S: "local:" + l.S} }),
+	)
+	return out.S, ferr
+}
+'''
+
 MAIN = '''package main
 
 import (
@@ -115,6 +141,8 @@ PROBES = {
     "F9": dict(src=F9, fn="ErrCapture", want='RESULT "outer" <nil>'),
     "F7": dict(src=F7, fn="ShadowTime", want='RESULT "noon" <nil>'),
     "F8": dict(src=F8, fn="Nested", want='RESULT "inner:x" <nil>'),
+    "F10": dict(src=F10, fn="LocalType", want='RESULT "local:x" <nil>', cff_args=["-genmode", "modifier"]),
+    "F10base": dict(src=F10, fn="LocalType", want='RESULT "local:x" <nil>'),
 }
 
 
@@ -128,7 +156,7 @@ def run_probe(name):
     open(os.path.join(d, "probe.go"), "w").write(pr["src"])
     os.makedirs(os.path.join(mod, "cmd"))
     open(os.path.join(mod, "cmd", "main.go"), "w").write(MAIN % pr["fn"])
-    rc, out = common.run_cff(mod, "./probe")
+    rc, out = common.run_cff(mod, "./probe", extra=pr.get("cff_args", []))
     if rc != 0:
         return "cff rejects or crashes on the program", out[-1500:]
     rc, o, e = common.run(["go", "build", "-o", os.path.join(mod, "probe.bin"), "./cmd"], cwd=mod, env=common.GOENV, check=False, timeout=600)
